@@ -30,7 +30,10 @@ EXPLANATION = (
     "getPayload / getPayloadRef treat a coordinate as present is decided "
     "from the coordinate lists alone (never from the stored payload's "
     "value, so a stored default or empty sub-fiber is still the element "
-    "that was written).  Last-write-wins "
+    "that was written); (R6) fiber assignment (`<<=`, what a handle obtained at "
+    "a partial point is written through) reaches every normal return only "
+    "through the step that drops the old content and the loop that copies "
+    "the new one -- no path leaves the old content in place.  Last-write-wins "
     "over histories, prefix reads and start_pos equivalence are not decided.")
 RULE = ("one obligation per read accessor (effect query), per return path of "
         "the reference accessors, per tensor wrapper and per in-place "
@@ -50,6 +53,7 @@ def run(ctx):
     ctx.guard(r3)
     ctx.guard(r4, eff)
     ctx.guard(r5)
+    ctx.guard(r6_assign)
     ctx.assume("saved-position statistics (Fiber._saved_*) are an accelerator; "
                "writes to them are not tree effects")
 
@@ -309,3 +313,41 @@ def r5(ctx):
                     "never been written (allocate=False returns the caller's "
                     "default or None instead of the stored object)"
                     % (mname, text(m)), text_="%s presence" % mname)
+
+
+# -- R6: fiber assignment replaces the content on every path -------------------
+
+def r6_assign(ctx):
+    from ..cfg import ENTRY
+    f = ctx.method("Fiber", "__ilshift__")
+    g = cfg_of(f, assert_edges=False)
+    p_other = f.params[1]
+
+    def top(st):
+        while st is not None and st not in f.body:
+            st = getattr(st, "_parent", None)
+        return st
+    clears = {top(m.stmt) for m in field_mutations(ctx, f, {"coords", "payloads"})
+              if text(m.base) == f.params[0] and m.kind in ("rebind", "call:clear", "delitem")}
+    clears.discard(None)
+    copies = {x for x in f.body if isinstance(x, ast.For) and any(
+        isinstance(n, ast.Name) and n.id == p_other for n in ast.walk(x.iter))}
+    ctx.require(clears, "C03.R6: Fiber.__ilshift__ no longer drops the old content")
+    ctx.require(copies, "C03.R6: Fiber.__ilshift__ no longer copies from `%s`" % p_other)
+    rets = pat.returns(f)
+    ctx.require(rets, "C03.R6: Fiber.__ilshift__ has no return")
+    for r in rets:
+        miss = []
+        for what, sites in (("drops the previous content", clears),
+                            ("copies the assigned fiber's elements", copies)):
+            if r in g.reachable(ENTRY, avoid=sites) or r in sites and False:
+                miss.append(what)
+        if miss:
+            ctx.bad("C03.R6", f, r, "Fiber.__ilshift__ can return without the "
+                    "step that %s: on that path `ref <<= fiber` leaves the old "
+                    "elements in place, so a later read does not return what "
+                    "was assigned (e.g. assigning an empty fiber through a "
+                    "handle is silently ignored)" % " / ".join(miss))
+        else:
+            ctx.ok("C03.R6", f, r, "every path to this return clears the old "
+                   "content and copies the new one")
